@@ -1,0 +1,14 @@
+//go:build verif
+
+// Contracts for package wkb, checked by /verif/engine (govc). Comment-only.
+// Only the decoder's treatment of count fields is under contract (C07); the
+// byte layout itself needs a ghost byte stream that govc does not have.
+
+package wkb
+
+//@ func readPoints
+//@   prop C07
+//@   opt noframe=geom.Point,uint32,float64
+//@   requires [reader] typeof(r) != nil && typeof(byteOrder) != nil
+//@   ensures [geometry_or_error] result1 == nil ==> len(result0) >= 0
+//@   assert [count_checked_against_input] `points := make([]geom.Point, numPoints)` 16 * numPoints <= remaining(r)
